@@ -104,13 +104,84 @@ func inSprintf(ex *Exec, _ *ssa.Function, args []Value, _ ssa.Instruction) Value
 
 /* ---------------- math stubs ---------------- */
 
-func (ex *Exec) axiom(key string, t *Term) {
-	if ex.axDone[key] || t == ex.b.True {
+// axiomT registers a ground lemma keyed to a trigger term.  Lemmas are handed to the solver only
+// with queries whose terms reach the trigger (relevance filtering keeps NRA contexts small).
+func (ex *Exec) axiomT(trigger *Term, key string, fact *Term) {
+	if ex.axDone[key] || fact == ex.b.True {
 		return
 	}
 	ex.axDone[key] = true
 	ex.axioms++
-	ex.sol.Assert(t)
+	ex.axByTrig[trigger.id] = append(ex.axByTrig[trigger.id], &axEntry{fact: fact})
+}
+
+func (ex *Exec) axiomT2(t1, t2 *Term, key string, fact *Term) {
+	if ex.axDone[key] || fact == ex.b.True {
+		return
+	}
+	ex.axDone[key] = true
+	ex.axioms++
+	e := &axEntry{fact: fact}
+	ex.axByTrig[t1.id] = append(ex.axByTrig[t1.id], e)
+	ex.axByTrig[t2.id] = append(ex.axByTrig[t2.id], e)
+}
+
+// relevantAxioms returns the not-yet-permanent lemmas whose triggers occur in the cones of roots
+// (transitively through the lemmas themselves), and whether the cone holds non-linear real terms.
+func (ex *Exec) relevantAxioms(roots []*Term) (out []*axEntry, nonlinear bool) {
+	seen := map[int]bool{}
+	got := map[*axEntry]bool{}
+	var stack []*Term
+	stack = append(stack, roots...)
+	for len(stack) > 0 {
+		t := stack[len(stack)-1]
+		stack = stack[:len(stack)-1]
+		if seen[t.id] {
+			continue
+		}
+		seen[t.id] = true
+		switch t.op {
+		case "rinv":
+			if !t.args[0].isConst() {
+				nonlinear = true
+			}
+		case "rmul":
+			nv := 0
+			for _, a := range t.args {
+				if a.op != "rconst" {
+					nv++
+				}
+			}
+			if nv >= 2 {
+				nonlinear = true
+			}
+		}
+		if es, ok := ex.axByTrig[t.id]; ok {
+			for _, e := range es {
+				if !e.permanent && !got[e] {
+					got[e] = true
+					out = append(out, e)
+					stack = append(stack, e.fact)
+				}
+			}
+		}
+		stack = append(stack, t.args...)
+	}
+	return
+}
+
+// check decides pc /\ extras together with the relevant ground lemmas.
+func (ex *Exec) check(extras []*Term, want []*Term) (string, map[string]ModelVal) {
+	ax, nl := ex.relevantAxioms(extras)
+	if len(ax) == 0 {
+		return ex.sol.Check(extras, want, nl)
+	}
+	all := make([]*Term, 0, len(extras)+len(ax))
+	all = append(all, extras...)
+	for _, e := range ax {
+		all = append(all, e.fact)
+	}
+	return ex.sol.Check(all, want, nl)
 }
 
 func ratF(r *big.Rat) float64 { f, _ := r.Float64(); return f }
@@ -135,7 +206,7 @@ func (ex *Exec) mExp(x F) F {
 		return F{T: ex.b.Rat(ratOne), D: x.D}
 	}
 	t := ex.b.UF("exp", x.T)
-	ex.axiom("exp"+strconv.Itoa(x.T.id), ex.b.RLt(ex.b.Rat(ratZero), t))
+	ex.axiomT(t, "exp"+strconv.Itoa(x.T.id), ex.b.RLt(ex.b.Rat(ratZero), t))
 	return F{T: t, D: x.D}
 }
 
@@ -151,7 +222,7 @@ func (ex *Exec) mLog(x F) F {
 	t := tb.UF("log", x.T)
 	one := tb.Rat(ratOne)
 	zero := tb.Rat(ratZero)
-	ex.axiom("log"+strconv.Itoa(x.T.id), tb.And(
+	ex.axiomT(t, "log"+strconv.Itoa(x.T.id), tb.And(
 		tb.Implies(tb.RLe(one, x.T), tb.RLe(zero, t)),
 		tb.Implies(tb.And(pos, tb.RLe(x.T, one)), tb.RLe(t, zero)),
 		tb.Implies(tb.RLt(one, x.T), tb.RLt(zero, t)),
@@ -183,7 +254,7 @@ func (ex *Exec) mTrig(which string, x F) F {
 	s := tb.UF("sin", x.T)
 	c := tb.UF("cos", x.T)
 	one := tb.Rat(ratOne)
-	ex.axiom("trig"+strconv.Itoa(x.T.id), tb.And(
+	ex.axiomT2(s, c, "trig"+strconv.Itoa(x.T.id), tb.And(
 		tb.Eq(tb.RAdd(tb.RMul(s, s), tb.RMul(c, c)), one),
 	))
 	switch which {
@@ -194,7 +265,7 @@ func (ex *Exec) mTrig(which string, x F) F {
 	}
 	t := tb.UF("tan", x.T)
 	nz := tb.Not(tb.Eq(c, tb.Rat(ratZero)))
-	ex.axiom("tan"+strconv.Itoa(x.T.id), tb.Implies(nz, tb.Eq(tb.RMul(t, c), s)))
+	ex.axiomT(t, "tan"+strconv.Itoa(x.T.id), tb.Implies(nz, tb.Eq(tb.RMul(t, c), s)))
 	return F{T: t, D: ex.andD(x.D, nz)}
 }
 
@@ -217,7 +288,7 @@ func (ex *Exec) mHyp(which string, x F) F {
 	s := tb.UF("sinh", x.T)
 	c := tb.UF("cosh", x.T)
 	one := tb.Rat(ratOne)
-	ex.axiom("hyp"+strconv.Itoa(x.T.id), tb.And(
+	ex.axiomT2(s, c, "hyp"+strconv.Itoa(x.T.id), tb.And(
 		tb.Eq(tb.RSub(tb.RMul(c, c), tb.RMul(s, s)), one),
 		tb.RLe(one, c),
 	))
@@ -228,7 +299,7 @@ func (ex *Exec) mHyp(which string, x F) F {
 		return F{T: c, D: x.D}
 	}
 	t := tb.UF("tanh", x.T)
-	ex.axiom("tanh"+strconv.Itoa(x.T.id), tb.Eq(tb.RMul(t, c), s))
+	ex.axiomT(t, "tanh"+strconv.Itoa(x.T.id), tb.Eq(tb.RMul(t, c), s))
 	return F{T: t, D: x.D}
 }
 
@@ -248,7 +319,7 @@ func (ex *Exec) mSqrt(x F) F {
 	}
 	t := tb.UF("sqrt", x.T)
 	nn := tb.RLe(zero, x.T)
-	ex.axiom("sqrt"+strconv.Itoa(x.T.id), tb.And(
+	ex.axiomT(t, "sqrt"+strconv.Itoa(x.T.id), tb.And(
 		tb.Implies(nn, tb.And(tb.RLe(zero, t), tb.Eq(tb.RMul(t, t), x.T))),
 		tb.Implies(tb.RLt(zero, x.T), tb.RLt(zero, t))))
 	d := x.D
@@ -283,7 +354,7 @@ func (ex *Exec) mPow(x, a F) F {
 				for k := int64(1); k < m; k++ {
 					p = tb.RMul(p, x.T)
 					if k%2 == 1 && p.op == "rmul" {
-						ex.axiom("sq"+strconv.Itoa(p.id), tb.RLe(tb.Rat(ratZero), p))
+						ex.axiomT(p, "sq"+strconv.Itoa(p.id), tb.RLe(tb.Rat(ratZero), p))
 					}
 				}
 				if n > 0 {
@@ -305,7 +376,7 @@ func (ex *Exec) mPow(x, a F) F {
 	if pos != tb.True {
 		d = ex.andD(d, pos)
 	}
-	ex.axiom("pow"+strconv.Itoa(t.id), tb.Implies(pos, tb.RLt(tb.Rat(ratZero), t)))
+	ex.axiomT(t, "pow"+strconv.Itoa(t.id), tb.Implies(pos, tb.RLt(tb.Rat(ratZero), t)))
 	return F{T: t, D: d}
 }
 
@@ -387,7 +458,7 @@ func (ex *Exec) niceModel(neg *Term, extra *Term) map[string]ModelVal {
 			cons = append(cons, tb.RLe(nlim, v), tb.RLe(v, lim))
 		}
 	}
-	r, m := ex.sol.Check(cons, ex.wantVars())
+	r, m := ex.check(cons, ex.wantVars())
 	if r == "sat" {
 		return m
 	}
@@ -409,14 +480,14 @@ func (ex *Exec) obligation(kind, label string, ob *Term, margin *Term, site ssa.
 	neg := tb.Not(ob)
 	if ob == tb.False {
 		// concrete failure: any model of the PC is a counterexample
-		r, m := ex.sol.Check(nil, ex.wantVars())
+		r, m := ex.check(nil, ex.wantVars())
 		if r == "unsat" {
 			panic(abortPath{"infeasible at failed assertion"})
 		}
 		ex.violate(Violation{Kind: kind, Label: label, Pos: pos, Detail: "fails on every input of this path", Solver: r}, m)
 		return
 	}
-	r, m := ex.sol.Check([]*Term{neg}, ex.wantVars())
+	r, m := ex.check([]*Term{neg}, ex.wantVars())
 	if ex.res.SampleQuery == "" && r == "unsat" {
 		ex.res.SampleQuery = label + ": " + neg.Short()
 	}
